@@ -116,12 +116,14 @@ R_GC = 'group_concat (string_agg / GROUP_CONCAT: order of the parts, separator s
 R_DECDIV = 'division / modulo with a NUMERIC operand (exact decimal arithmetic of the server vs floats of the substrate)'
 R_FMOD = 'modulo with a floating-point operand (the substrate % works on integers only; PostgreSQL has no % for double precision)'
 R_MYDIV = 'MySQL: integer / integer yields a decimal, not an integer (operator cannot be modelled on the substrate)'
+R_MYAVG = 'MySQL: AVG() of exact-value (integer) arguments is a DECIMAL rounded to scale + 4 digits (div_precision_increment), not a double'
+R_MYDATE = 'MySQL: result type of COALESCE / CASE / LEAST / GREATEST mixing a DATE column with a date parameter (a string literal under pymysql) is a string; type aggregation is not modelled'
 R_ORD = 'collation: ordering of strings (<, <=, >, >=, between, min/max, ORDER BY) follows the database collation'
 R_MYEQ = 'collation: MySQL string equality / DISTINCT / GROUP BY / IN are case- and accent-insensitive and pad-space under the default collation'
 R_ZERO = 'PostgreSQL raises division_by_zero for the whole statement (Python raises ZeroDivisionError on that row, too)'
 ORDER_OPS = ('lt', 'le', 'gt', 'ge', 'between', 'min2', 'max2', 'min3', 'max3', 'min', 'max', 'qmin', 'qmax')
 EQ_OPS = ('eq', 'ne', 'in_list', 'not_in_list', 'in_ms', 'not_in_ms', 'chain_eq_eq', 'count', 'qcount')
-STATIC_REASONS = (R_DATE, R_GC, R_DECDIV, R_FMOD, R_MYDIV, R_ORD, R_MYEQ)
+STATIC_REASONS = (R_DATE, R_GC, R_DECDIV, R_FMOD, R_MYDIV, R_ORD, R_MYEQ, R_MYAVG, R_MYDATE)
 
 def _item(t): return qx.item_t(t) if qx.is_ms(t) else t
 
@@ -134,6 +136,10 @@ def node_reason(d, n):
         if DEC in ts: return R_DECDIV
         if op == 'mod' and FLOAT in ts: return R_FMOD
         if d == 'mysql' and op != 'mod' and ts == [INT, INT]: return R_MYDIV
+    if d == 'mysql':
+        if op in ('avg', 'qavg') and ts == [INT]: return R_MYAVG
+        if n.t == DATE and op in ('coalesce2', 'coalesce3', 'ifexp', 'min2', 'max2', 'min3', 'max3') \
+                and any(c.t == DATE and (c.op == 'param' or (c.op != 'const' and qx.is_external(c))) for c in n.a): return R_MYDATE
     if STR in ts:
         if op in ORDER_OPS: return R_ORD
         if d == 'mysql' and op in EQ_OPS: return R_MYEQ
